@@ -39,9 +39,23 @@ func init() { register("C05", checkC05) }
 var escAlphabet = []string{"&", "<", ">", "\"", "'", "&amp;", "&lt;", "&quot;", "&#x41;", "&#65;", "]]>", "<![CDATA[", "a", "b", " ", "\t", "\n", "é", "&amp;amp;", "--", "<!--", "?>", "<?", "&", "<",
 	"\U0001F600", "\U00010000", "\U00010FFF", "\U00011000", "\U0010FFFD", "\u2028", "\ufffd", "\ufeff", "e\u0301", "&amp;lt;", "&amp;amp;lt;"}
 
+// denseSpecials: the five special characters only, quote-heavy, 7 to 70 of them - the values whose escaped form is several
+// times their length (size computations, fixed scratch buffers and "short value" thresholds are exact or wrong here)
+var denseSpecials = []string{"\"", "'", "\"", "'", "&", "<", ">"}
+
 func genEscStr(t *rapid.T, label string) string {
-	n := rapid.IntRange(1, 6).Draw(t, label+"n")
 	var sb strings.Builder
+	if rapid.IntRange(0, 11).Draw(t, label+"dense") == 0 {
+		n := rapid.IntRange(7, 70).Draw(t, label+"dn")
+		for i := 0; i < n; i++ {
+			sb.WriteString(rapid.SampledFrom(denseSpecials).Draw(t, label))
+		}
+		if rapid.Bool().Draw(t, label+"tail") {
+			sb.WriteString("abc")
+		}
+		return sb.String()
+	}
+	n := rapid.IntRange(1, 6).Draw(t, label+"n")
 	for i := 0; i < n; i++ {
 		sb.WriteString(rapid.SampledFrom(escAlphabet).Draw(t, label))
 	}
@@ -177,6 +191,12 @@ func checkC05(c CaseC05, info *Info) *Failure {
 		c05vals.key, c05vals.m, c05vals.ms = "", nil, nil
 	}()
 	info.Class("clause " + c.Clause)
+	for _, v := range []string{c.Text, c.Attr, c.Mixed} {
+		if len(v) >= 20 && len(v) <= 80 && strings.Count(v, "\"")+strings.Count(v, "'") >= len(v)/2 {
+			info.Class("a value of 20-80 bytes, at least half of them quotes")
+			break
+		}
+	}
 	switch c.Clause {
 	case "a":
 		mxj.XMLEscapeChars(true)
